@@ -1,6 +1,6 @@
-(* C14 — lemmas, part 3: result-list entries.  parseProxy against the reference
-   [spec_entry]: every well-formed entry is mapped to its proxy; nothing well-formed
-   is rejected; the converse (every malformed entry is rejected) is false. *)
+(* C14 — lemmas, part 3: result-list entries.  parseProxy computes exactly the
+   reference [spec_entry]: a well-formed entry is mapped to its proxy (keyword,
+   host, port), an unrecognised keyword is DIRECT, a malformed entry is rejected. *)
 From G14 Require Import Model Spec.
 Open Scope N_scope.
 
@@ -13,60 +13,84 @@ Proof.
   - simpl. exact IH.
 Qed.
 
+Lemma assoc_str_absent k l :
+  existsb (str_eqb k) l = false -> assoc_str k (map (fun m => (m, m)) l) = None.
+Proof.
+  induction l as [|x l IH]; simpl; [reflexivity|].
+  destruct (str_eqb k x); simpl; [discriminate|]. exact IH.
+Qed.
+
+(* what the reference makes of an entry, as a parse result *)
+Definition spec_parse (s : str) : option proxy :=
+  match spec_entry s with
+  | SDirect => Some direct
+  | SProxy kw h p => Some {| p_mode := kw; p_host := h; p_port := p |}
+  | SUnknown _ h p => Some {| p_mode := b "DIRECT"; p_host := h; p_port := p |}
+  | SMalformed => None
+  end.
+
+Lemma forallb_negb_existsb {A} (f : A -> bool) l : forallb (fun x => negb (f x)) l = negb (existsb f l).
+Proof. induction l as [|x l IH]; [reflexivity|]. simpl. rewrite IH, negb_orb. reflexivity. Qed.
+
 Section Parse.
   Hypothesis Harms : parse_mode_arms = map (fun m => (m, m)) known_keywords.
+  Hypothesis Hdefault : parse_mode_has_default = true /\ parse_mode_default = b "DIRECT".
   Hypothesis Hdirect : mode_direct = b "DIRECT".
-  Hypothesis Hshape : parse_proxy_trims = true /\ parse_proxy_has_direct_literal = true /\ parse_proxy_validates_port = true.
+  Hypothesis Hshape : parse_proxy_trims = true /\ parse_proxy_has_direct_literal = true /\
+                      parse_proxy_validates_port = true /\ parse_proxy_validates_host = true.
   Hypothesis Halias : url_mode_alias = [(b "PROXY", b "HTTP")].
 
-  Lemma parse_known kw : existsb (str_eqb kw) known_keywords = true -> parse_mode kw = Some kw.
-  Proof. intro H. unfold parse_mode. rewrite Harms, (assoc_str_identity _ _ H). reflexivity. Qed.
-
-  (* a well-formed entry is mapped to its proxy: keyword, host, port *)
-  Lemma parse_wellformed s kw h p :
-    spec_entry s = SProxy kw h p -> parse_proxy s = Some {| p_mode := kw; p_host := h; p_port := p |}.
+  Lemma parse_mode_spec kw :
+    parse_mode kw = Some (if existsb (str_eqb kw) known_keywords then kw else b "DIRECT").
   Proof.
-    destruct Hshape as (Ht & Hd & Hv). unfold spec_entry, parse_proxy. rewrite Ht, Hd, Hv, Hdirect.
-    destruct (nil_str (trim_space s)); [discriminate|].
-    destruct (str_eqb (trim_space s) (b "DIRECT")); [discriminate|]. cbn [andb].
-    destruct (cut_byte 32 (trim_space s)) as [[kw' hp]|]; [|discriminate].
-    destruct (existsb (str_eqb kw') known_keywords) eqn:Ek; [|discriminate]. cbn [negb].
-    destruct (split_host_port hp) as [[h' p']|]; [|discriminate].
-    destruct (nil_str h' || negb (forallb host_char_ok h')) eqn:Eh; [discriminate|].
-    destruct (valid_port16 p') eqn:Ep; [|discriminate]. cbn [negb andb].
-    intro H. inversion H; subst. apply orb_false_iff in Eh as [Eh _]. rewrite Eh, andb_false_r.
-    rewrite (parse_known _ Ek). reflexivity.
+    destruct Hdefault as [Hd1 Hd2]. unfold parse_mode. rewrite Harms.
+    destruct (existsb (str_eqb kw) known_keywords) eqn:E.
+    - rewrite (assoc_str_identity _ _ E). reflexivity.
+    - rewrite (assoc_str_absent _ _ E), Hd1, Hd2. reflexivity.
   Qed.
 
-  Lemma parse_direct s : spec_entry s = SDirect -> parse_proxy s = Some direct.
+  (* parseProxy is the reference: every entry, well-formed or not *)
+  Lemma parse_proxy_is_spec s : parse_proxy s = spec_parse s.
   Proof.
-    destruct Hshape as (Ht & Hd & Hv). unfold spec_entry, parse_proxy. rewrite Ht, Hd, Hdirect.
+    destruct Hshape as (Ht & Hd & Hv & Hh). unfold spec_parse, spec_entry, parse_proxy.
+    rewrite Ht, Hd, Hv, Hh, Hdirect. cbn [andb].
     destruct (nil_str (trim_space s)); [reflexivity|].
     destruct (str_eqb (trim_space s) (b "DIRECT")); [reflexivity|].
-    destruct (cut_byte 32 (trim_space s)) as [[kw' hp]|]; [|discriminate].
-    destruct (negb (existsb (str_eqb kw') known_keywords)); [discriminate|].
-    destruct (split_host_port hp) as [[h' p']|]; [|discriminate].
-    destruct (nil_str h' || negb (forallb host_char_ok h')); [discriminate|].
-    destruct (negb (valid_port16 p')); discriminate.
+    destruct (cut_byte 32 (trim_space s)) as [[kw hp]|]; [|reflexivity].
+    destruct (split_host_port hp) as [[h p]|]; [|reflexivity].
+    unfold host_char_ok. rewrite forallb_negb_existsb, negb_involutive.
+    destruct (nil_str h || existsb blank_or_control h); [reflexivity|].
+    destruct (valid_port16 p); [|reflexivity]. cbn [negb].
+    rewrite parse_mode_spec. destruct (existsb (str_eqb kw) known_keywords); reflexivity.
   Qed.
 
-  (* nothing well-formed is rejected *)
-  Lemma parse_rejects_only_malformed s : parse_proxy s = None -> spec_entry s = SMalformed.
-  Proof.
-    intro H. destruct (spec_entry s) as [|kw h p|] eqn:E; [| |reflexivity].
-    - rewrite (parse_direct _ E) in H. discriminate.
-    - rewrite (parse_wellformed _ _ _ _ E) in H. discriminate.
-  Qed.
-
-  (* the scheme of a well-formed entry: lower-cased keyword, PROXY reads as http, DIRECT has no URL *)
+  (* the scheme of an entry: lower-cased keyword, PROXY reads as http, DIRECT has no URL *)
   Lemma url_wellformed kw h p :
-    existsb (str_eqb kw) known_keywords = true ->
     proxy_url {| p_mode := kw; p_host := h; p_port := p |} =
     match spec_scheme kw with Some sc => Some (sc, join_host_port h p) | None => None end.
   Proof.
-    intro Hk. unfold proxy_url, proxy_scheme, spec_scheme. cbn [p_mode p_host p_port]. rewrite Hdirect, Halias.
+    unfold proxy_url, proxy_scheme, spec_scheme. cbn [p_mode p_host p_port]. rewrite Hdirect, Halias.
     destruct (str_eqb kw (b "DIRECT")) eqn:E1; [reflexivity|].
-    cbn [assoc_str]. destruct (str_eqb kw (b "PROXY")) eqn:E2; [reflexivity|reflexivity].
+    cbn [assoc_str]. destruct (str_eqb kw (b "PROXY")) eqn:E2; reflexivity.
   Qed.
-End Parse.
 
+  (* lists: First is the first entry; All is every entry or an error *)
+  Lemma first_is_spec s :
+    proxies_first s = if nil_str s then Some direct else spec_parse (match split_byte 59 s with x :: _ => x | [] => [] end).
+  Proof.
+    unfold proxies_first. destruct (nil_str s); [reflexivity|].
+    destruct (split_byte 59 s) as [|x r]; [|apply parse_proxy_is_spec].
+    unfold spec_parse, spec_entry. reflexivity.
+  Qed.
+
+  Lemma parse_all_spec specs :
+    parse_all specs = (fix go (l : list str) : option (list proxy) :=
+                         match l with
+                         | [] => Some []
+                         | x :: r => match spec_parse x with
+                                     | None => None
+                                     | Some p => option_map (cons p) (go r)
+                                     end
+                         end) specs.
+  Proof. induction specs as [|x r IH]; [reflexivity|]. cbn [parse_all]. rewrite parse_proxy_is_spec, IH. reflexivity. Qed.
+End Parse.
